@@ -5,6 +5,7 @@ go 1.23.0
 require (
 	github.com/ipfs/go-block-format v0.2.0
 	github.com/ipfs/go-cid v0.5.0
+	github.com/ipfs/go-ipld-format v0.6.0
 	github.com/ipld/go-car v0.6.2
 	github.com/ipld/go-car/cmd v0.0.0
 	github.com/ipld/go-car/v2 v2.14.2
@@ -27,7 +28,6 @@ require (
 	github.com/ipfs/go-ipfs-exchange-interface v0.2.1 // indirect
 	github.com/ipfs/go-ipfs-util v0.0.3 // indirect
 	github.com/ipfs/go-ipld-cbor v0.2.0 // indirect
-	github.com/ipfs/go-ipld-format v0.6.0 // indirect
 	github.com/ipfs/go-ipld-legacy v0.2.1 // indirect
 	github.com/ipfs/go-log v1.0.5 // indirect
 	github.com/ipfs/go-log/v2 v2.5.1 // indirect
